@@ -1,12 +1,609 @@
+//! schedsim — engine 2: the global registries of bc-envelope (format context, known values,
+//! functions, parameters; dcbor's global tags) under a scheduler the simulator owns (shuttle).
+//! Every execution starts from *uninitialised* registries, so first-use races are the norm.
+//!
+//!   schedsim run C20 <quick|thorough>
+//!   schedsim replay <file.json>
+
+use bc_components::DigestProvider;
+use bc_envelope::extension::expressions::{Function, Parameter};
 use bc_envelope::prelude::*;
-use shuttle::thread;
+use bc_envelope::{with_format_context, FormatContext};
+use serde_json::json;
+use shuttle::scheduler::{PctScheduler, RandomScheduler};
+use shuttle::{thread, Config, FailurePersistence, MaxSteps, Runner};
+use std::collections::{BTreeMap, HashSet};
+use std::sync::atomic::{AtomicU64, AtomicUsize, Ordering};
+use std::sync::{Arc, Mutex as StdMutex, OnceLock};
+use std::time::Instant;
+
+// ---------------------------------------------------------------------------------------
+// workload
+
+/// An envelope whose notation differs between S1 (format context initialised) and S2
+/// (envelope-level summarizers installed by register_tags): function, parameter, known value,
+/// request-tagged leaves.
+fn probe_envelope() -> Envelope {
+    Envelope::new(Function::from(2u64))
+        .add_assertion(Parameter::from(1u64), "x")
+        .add_assertion(known_values::IS_A, CBOR::to_tagged_value(40000u64, 3u64))
+        .add_assertion("fn", Function::new_named("foo"))
+        .add_assertion(known_values::NOTE, CBOR::to_tagged_value(40004u64, "req"))
+}
+
+fn plain_envelope() -> Envelope {
+    Envelope::new("Alice").add_assertion("knows", "Bob").add_assertion(known_values::IS_A, known_values::SEED_TYPE)
+}
+
+#[derive(Clone, Copy, Debug, PartialEq, Eq, Hash, PartialOrd, Ord)]
+enum Op {
+    Format,
+    FormatFlat,
+    TreeFormat,
+    DiagAnnotated,
+    Hex,
+    RegisterTags,
+    ContextRead,
+    KnownValuesLookup,
+    FunctionsLookup,
+    DcborDiag,
+    SharedCodec,
+    RegisterThenUr,
+}
+const OPS: [Op; 12] = [Op::Format, Op::FormatFlat, Op::TreeFormat, Op::DiagAnnotated, Op::Hex, Op::RegisterTags, Op::ContextRead, Op::KnownValuesLookup, Op::FunctionsLookup, Op::DcborDiag, Op::SharedCodec, Op::RegisterThenUr];
+
+impl Op {
+    /// uses the global format context (initialises it on first use)
+    fn initialises(&self) -> bool {
+        matches!(self, Op::Format | Op::FormatFlat | Op::TreeFormat | Op::DiagAnnotated | Op::Hex | Op::RegisterTags | Op::ContextRead | Op::RegisterThenUr)
+    }
+    fn registers(&self) -> bool {
+        matches!(self, Op::RegisterTags | Op::RegisterThenUr)
+    }
+    fn formats(&self) -> bool {
+        matches!(self, Op::Format | Op::FormatFlat | Op::TreeFormat | Op::DiagAnnotated | Op::Hex)
+    }
+}
+
+fn run_op(op: Op, e: &Envelope, shared: &Arc<Envelope>) -> String {
+    match op {
+        Op::Format => e.format(),
+        Op::FormatFlat => e.format_flat(),
+        Op::TreeFormat => e.tree_format(false),
+        Op::DiagAnnotated => e.diagnostic_annotated(),
+        Op::Hex => e.hex(),
+        Op::RegisterTags => {
+            bc_envelope::register_tags();
+            String::new()
+        }
+        Op::ContextRead => with_format_context!(|c: &FormatContext| c.known_values().name(known_values::IS_A)),
+        Op::KnownValuesLookup => {
+            let b = known_values::KNOWN_VALUES.get();
+            let s = b.as_ref().unwrap();
+            format!("{}/{}", s.name(known_values::NOTE), s.known_value_named("isA").map(|k| k.value()).unwrap_or(0))
+        }
+        Op::FunctionsLookup => {
+            let fname = {
+                let b = bc_envelope::extension::expressions::GLOBAL_FUNCTIONS.get();
+                bc_envelope::extension::expressions::FunctionsStore::name_for_function(&Function::from(2u64), b.as_ref())
+            };
+            let pname = {
+                let b = bc_envelope::extension::expressions::GLOBAL_PARAMETERS.get();
+                bc_envelope::extension::expressions::ParametersStore::name_for_parameter(&Parameter::from(1u64), b.as_ref())
+            };
+            format!("{}/{}", fname, pname)
+        }
+        Op::DcborDiag => e.tagged_cbor().diagnostic_annotated(),
+        Op::SharedCodec => {
+            // digest / encoding / decoding of one Arc-shared envelope
+            let bytes = shared.to_cbor_data();
+            let back = Envelope::try_from_cbor_data(bytes.clone()).map(|x| x.digest().into_owned().hex()).unwrap_or_else(|_| "decode-error".to_string());
+            format!("{}|{}|{}", shared.digest().hex(), hex(&bytes), back)
+        }
+        Op::RegisterThenUr => {
+            // program-order guarantee: after this thread's own register_tags(), ur_string() works
+            bc_envelope::register_tags();
+            shared.ur_string()
+        }
+    }
+}
+
+fn hex(b: &[u8]) -> String {
+    b.iter().map(|x| format!("{:02x}", x)).collect()
+}
+
+// ---------------------------------------------------------------------------------------
+// expected texts per model state, produced by the real calls run alone (single-threaded, inside
+// a shuttle execution so that the registries start uninitialised)
+
+#[derive(Default, Debug, Clone)]
+struct Expected {
+    /// (op, envelope index) -> text in S1 / S2
+    s1: BTreeMap<(Op, usize), String>,
+    s2: BTreeMap<(Op, usize), String>,
+    dcbor_s0: Vec<String>,
+    dcbor_s1: Vec<String>,
+    constants: BTreeMap<Op, String>,
+}
+
+static EXPECTED: OnceLock<Expected> = OnceLock::new();
+
+fn envs() -> Vec<Envelope> {
+    vec![probe_envelope(), plain_envelope()]
+}
+
+fn calibrate() -> Expected {
+    let out: Arc<StdMutex<Expected>> = Arc::new(StdMutex::new(Expected::default()));
+    let o2 = out.clone();
+    let mut cfg = Config::new();
+    cfg.stack_size = 0x100000;
+    cfg.failure_persistence = FailurePersistence::None;
+    Runner::new(RandomScheduler::new_from_seed(1, 1), cfg).run(move || {
+        let shared = Arc::new(plain_envelope());
+        let mut ex = Expected::default();
+        let es = envs();
+        // S0: nothing initialised
+        for e in &es {
+            ex.dcbor_s0.push(run_op(Op::DcborDiag, e, &shared));
+        }
+        ex.constants.insert(Op::KnownValuesLookup, run_op(Op::KnownValuesLookup, &es[0], &shared));
+        ex.constants.insert(Op::FunctionsLookup, run_op(Op::FunctionsLookup, &es[0], &shared));
+        ex.constants.insert(Op::SharedCodec, run_op(Op::SharedCodec, &es[0], &shared));
+        // S1: first formatting use initialises the context
+        for (i, e) in es.iter().enumerate() {
+            for op in OPS.iter().filter(|o| o.formats()) {
+                ex.s1.insert((*op, i), run_op(*op, e, &shared));
+            }
+        }
+        for e in &es {
+            ex.dcbor_s1.push(run_op(Op::DcborDiag, e, &shared));
+        }
+        ex.constants.insert(Op::ContextRead, run_op(Op::ContextRead, &es[0], &shared));
+        // S2
+        ex.constants.insert(Op::RegisterThenUr, run_op(Op::RegisterThenUr, &es[0], &shared));
+        for (i, e) in es.iter().enumerate() {
+            for op in OPS.iter().filter(|o| o.formats()) {
+                ex.s2.insert((*op, i), run_op(*op, e, &shared));
+            }
+        }
+        *o2.lock().unwrap() = ex;
+    });
+    let ex = out.lock().unwrap().clone();
+    ex
+}
+
+// ---------------------------------------------------------------------------------------
+// one execution
+
+#[derive(Clone, Debug)]
+struct Event {
+    thread: usize,
+    op: Op,
+    env: usize,
+    inv: u64,
+    ret: u64,
+    out: String,
+}
+
+struct Stats {
+    executions: AtomicU64,
+    histories: StdMutex<HashSet<u64>>,
+    probes: StdMutex<BTreeMap<&'static str, u64>>,
+    ops_run: AtomicU64,
+    max_threads: AtomicUsize,
+    sample: StdMutex<Vec<String>>,
+}
+
+static STATS: OnceLock<Stats> = OnceLock::new();
+fn stats() -> &'static Stats {
+    STATS.get_or_init(|| Stats { executions: AtomicU64::new(0), histories: StdMutex::new(HashSet::new()), probes: StdMutex::new(BTreeMap::new()), ops_run: AtomicU64::new(0), max_threads: AtomicUsize::new(0), sample: StdMutex::new(vec![]) })
+}
+fn probe(name: &'static str) {
+    *stats().probes.lock().unwrap().entry(name).or_insert(0) += 1;
+}
+
+#[derive(Clone, Copy)]
+struct Workload {
+    max_threads: usize,
+    max_ops: usize,
+}
+
+fn draw(n: u64) -> u64 {
+    use shuttle::rand::Rng;
+    shuttle::rand::thread_rng().gen_range(0..n)
+}
+
+/// The scenario executed under shuttle. Workload choices come from shuttle::rand, so the
+/// schedule file alone determines the execution. Panics (with an oracle id) on a violation.
+fn scenario(wl: Workload) {
+    let expected = EXPECTED.get().expect("calibration");
+    let nthreads = 2 + draw((wl.max_threads - 1) as u64) as usize;
+    let seq = Arc::new(AtomicU64::new(0));
+    let hist: Arc<StdMutex<Vec<Event>>> = Arc::new(StdMutex::new(vec![]));
+    let shared = Arc::new(plain_envelope());
+    // the plan is drawn up-front on the main task
+    let mut plans: Vec<Vec<(Op, usize)>> = vec![];
+    for _ in 0..nthreads {
+        let k = 1 + draw(wl.max_ops as u64) as usize;
+        plans.push((0..k).map(|_| (OPS[draw(OPS.len() as u64) as usize], draw(2) as usize)).collect());
+    }
+    let mut handles = vec![];
+    for (t, plan) in plans.into_iter().enumerate() {
+        let seq = seq.clone();
+        let hist = hist.clone();
+        let shared = shared.clone();
+        handles.push(thread::spawn(move || {
+            let es = envs();
+            for (op, ei) in plan {
+                let inv = seq.fetch_add(1, Ordering::SeqCst);
+                let out = run_op(op, &es[ei], &shared);
+                let ret = seq.fetch_add(1, Ordering::SeqCst);
+                hist.lock().unwrap().push(Event { thread: t, op, env: ei, inv, ret, out });
+            }
+        }));
+    }
+    for h in handles {
+        h.join().expect("C20.completion: a worker thread panicked");
+    }
+    let events = hist.lock().unwrap().clone();
+    check_history(&events, expected);
+    // bookkeeping (outside the scheduler's view: std primitives, never contended)
+    let st = stats();
+    st.executions.fetch_add(1, Ordering::Relaxed);
+    st.ops_run.fetch_add(events.len() as u64, Ordering::Relaxed);
+    st.max_threads.fetch_max(nthreads, Ordering::Relaxed);
+    let mut h = 0xcbf29ce484222325u64;
+    let mut by_ret = events.clone();
+    by_ret.sort_by_key(|e| e.ret);
+    for e in &by_ret {
+        let overlapped = events.iter().filter(|o| o.thread != e.thread && o.inv < e.ret && e.inv < o.ret).count() as u64;
+        h = (h ^ (e.op as u64 * 131 + e.thread as u64 * 7 + overlapped * 1009 + (e.out.len() as u64 % 97))).wrapping_mul(0x100000001b3);
+    }
+    st.histories.lock().unwrap().insert(h);
+    let mut s = st.sample.lock().unwrap();
+    if s.len() < 3 {
+        s.push(by_ret.iter().map(|e| format!("t{}:{:?}[{}..{}]", e.thread, e.op, e.inv, e.ret)).collect::<Vec<_>>().join(" "));
+    }
+}
+
+fn check_history(events: &[Event], ex: &Expected) {
+    // classify outputs
+    let mut a_ops: Vec<&Event> = vec![]; // formatting call returned its S1 text
+    let mut b_ops: Vec<&Event> = vec![]; // formatting call returned its S2 text
+    let mut z_ops: Vec<&Event> = vec![]; // dcbor-level diag returned the S0 text
+    let mut nz_ops: Vec<&Event> = vec![];
+    for e in events {
+        if e.op.formats() {
+            let t1 = &ex.s1[&(e.op, e.env)];
+            let t2 = &ex.s2[&(e.op, e.env)];
+            if &e.out == t1 && t1 == t2 {
+                // indistinguishable (plain envelope): no constraint
+            } else if &e.out == t1 {
+                a_ops.push(e);
+            } else if &e.out == t2 {
+                b_ops.push(e);
+            } else {
+                panic!("C20.alone-text: {:?} on envelope {} returned a text it never returns when run alone:\n{}\n--- S1 text:\n{}\n--- S2 text:\n{}", e.op, e.env, e.out, t1, t2);
+            }
+        } else if e.op == Op::DcborDiag {
+            if e.out == ex.dcbor_s0[e.env] && ex.dcbor_s0[e.env] != ex.dcbor_s1[e.env] {
+                z_ops.push(e);
+            } else if e.out == ex.dcbor_s1[e.env] {
+                if ex.dcbor_s0[e.env] != ex.dcbor_s1[e.env] {
+                    nz_ops.push(e);
+                }
+            } else {
+                panic!("C20.alone-text: dcbor-level annotated diagnostic returned a text it never returns when run alone: {}", e.out);
+            }
+        } else if let Some(c) = ex.constants.get(&e.op) {
+            if &e.out != c {
+                let id = if e.op == Op::SharedCodec { "C20.shared" } else { "C20.alone-text" };
+                panic!("{}: {:?} returned {:?}, alone it returns {:?}", id, e.op, e.out, c);
+            }
+        }
+    }
+    // linearizability against the monotone three-state model.
+    // t2 = linearization point of the first register_tags; t1 = of the first initialising op.
+    let inf = u64::MAX as f64;
+    let window = |set: Vec<&Event>| -> (f64, f64) {
+        if set.is_empty() {
+            (inf, inf) // the transition never happens
+        } else {
+            (set.iter().map(|e| e.inv).min().unwrap() as f64, set.iter().map(|e| e.ret).min().unwrap() as f64)
+        }
+    };
+    let regs: Vec<&Event> = events.iter().filter(|e| e.op.registers()).collect();
+    let inits: Vec<&Event> = events.iter().filter(|e| e.op.initialises()).collect();
+    let (r_lo, r_hi) = window(regs.clone());
+    if regs.is_empty() {
+        if let Some(b) = b_ops.first() {
+            panic!("C20.linearizable: {:?} returned the text of the state after register_tags(), but nobody called register_tags()", b.op);
+        }
+    } else {
+        // need t2 with r_lo < t2 < r_hi, t2 > inv(A) for every A, t2 < ret(B) for every B
+        let lo = a_ops.iter().map(|e| e.inv as f64).fold(r_lo, f64::max);
+        let hi = b_ops.iter().map(|e| e.ret as f64).fold(r_hi, f64::min);
+        if !(lo < hi) {
+            panic!(
+                "C20.linearizable: no linearization of register_tags explains the formatting results: S1-text ops invoked at {:?}, S2-text ops returned at {:?}, register_tags windows {:?}",
+                a_ops.iter().map(|e| e.inv).collect::<Vec<_>>(),
+                b_ops.iter().map(|e| e.ret).collect::<Vec<_>>(),
+                regs.iter().map(|e| (e.inv, e.ret)).collect::<Vec<_>>()
+            );
+        }
+    }
+    let (i_lo, i_hi) = window(inits.clone());
+    if inits.is_empty() {
+        if let Some(x) = nz_ops.first() {
+            panic!("C20.linearizable: dcbor-level diagnostic at [{}..{}] shows registered tags although nothing initialised the format context", x.inv, x.ret);
+        }
+    } else {
+        let lo = z_ops.iter().map(|e| e.inv as f64).fold(i_lo, f64::max);
+        let hi = nz_ops.iter().map(|e| e.ret as f64).fold(i_hi, f64::min);
+        if !(lo < hi) {
+            panic!("C20.linearizable: no linearization of first-use initialisation explains the dcbor-level diagnostics");
+        }
+    }
+    // probes
+    let overlapping_inits = inits.iter().filter(|e| inits.iter().any(|o| o.thread != e.thread && o.inv < e.ret && e.inv < o.ret)).count();
+    if overlapping_inits >= 2 {
+        probe("two-threads-in-first-use-initialisation-window");
+    }
+    if regs.iter().any(|r| events.iter().any(|o| o.op.formats() && o.thread != r.thread && o.inv < r.ret && r.inv < o.ret)) {
+        probe("register_tags-overlaps-format");
+    }
+    if events.iter().any(|l| matches!(l.op, Op::KnownValuesLookup | Op::FunctionsLookup) && inits.iter().any(|o| o.thread != l.thread && o.inv < l.ret && l.inv < o.ret)) {
+        probe("lookup-overlaps-initialisation");
+    }
+    if !a_ops.is_empty() && !b_ops.is_empty() {
+        probe("both-S1-and-S2-texts-observed");
+    }
+    if !z_ops.is_empty() && !nz_ops.is_empty() {
+        probe("both-S0-and-S1-dcbor-texts-observed");
+    }
+}
+
+// ---------------------------------------------------------------------------------------
+// driver
+
+fn verif_dir() -> String {
+    std::env::var("VERIF_DIR").unwrap_or_else(|_| "/verif".to_string())
+}
+
+fn run_batch(kind: &str, seed: u64, iterations: usize, wl: Workload, dir: &std::path::Path) -> Result<(), String> {
+    let mut cfg = Config::new();
+    cfg.stack_size = 0x100000;
+    cfg.failure_persistence = FailurePersistence::File(Some(dir.to_path_buf()));
+    cfg.max_steps = MaxSteps::FailAfter(2_000_000);
+    let r = std::panic::catch_unwind(move || {
+        if let Some(d) = kind.strip_prefix("pct") {
+            let depth: usize = d.parse().unwrap_or(2);
+            Runner::new(PctScheduler::new_from_seed(seed, depth, iterations), cfg).run(move || scenario(wl));
+        } else {
+            Runner::new(RandomScheduler::new_from_seed(seed, iterations), cfg).run(move || scenario(wl));
+        }
+    });
+    match r {
+        Ok(()) => Ok(()),
+        Err(e) => {
+            let msg = if let Some(s) = e.downcast_ref::<&str>() {
+                s.to_string()
+            } else if let Some(s) = e.downcast_ref::<String>() {
+                s.clone()
+            } else {
+                "panic".to_string()
+            };
+            Err(msg)
+        }
+    }
+}
+
+fn newest_schedule(dir: &std::path::Path) -> Option<String> {
+    let mut v: Vec<_> = std::fs::read_dir(dir).ok()?.filter_map(|e| e.ok()).filter(|e| e.file_name().to_string_lossy().starts_with("schedule")).collect();
+    v.sort_by_key(|e| e.metadata().and_then(|m| m.modified()).ok());
+    v.last().map(|e| e.path().to_string_lossy().to_string())
+}
+
+fn oracle_of(msg: &str) -> String {
+    for id in ["C20.alone-text", "C20.linearizable", "C20.shared", "C20.completion"] {
+        if msg.contains(id) {
+            return id.to_string();
+        }
+    }
+    // shuttle's own reports: deadlock, re-entrant lock, step bound, poisoned lock surfacing as unwrap panic
+    "C20.completion".to_string()
+}
+
 fn main() {
-    shuttle::check_random(|| {
-        let hs: Vec<_> = (0..3).map(|i| thread::spawn(move || {
-            let e = Envelope::new("Alice").add_assertion("knows", i);
-            e.format()
-        })).collect();
-        for h in hs { let s = h.join().unwrap(); assert!(s.contains("Alice")); }
-    }, 200);
-    println!("ok");
+    // silent panic hook: violations are reported by the driver, not by the default hook
+    std::panic::set_hook(Box::new(|_| {}));
+    let args: Vec<String> = std::env::args().collect();
+    let code = match args.get(1).map(|s| s.as_str()) {
+        Some("run") => run_check(args.get(3).map(|s| s.as_str()).unwrap_or("quick")),
+        Some("replay") => replay(args.get(2).map(|s| s.as_str()).unwrap_or("")),
+        _ => {
+            eprintln!("usage: schedsim run C20 <tier> | schedsim replay <file>");
+            2
+        }
+    };
+    std::process::exit(code);
+}
+
+fn workload_for(tier: &str) -> Workload {
+    if tier == "thorough" {
+        Workload { max_threads: 16, max_ops: 4 }
+    } else {
+        Workload { max_threads: 8, max_ops: 4 }
+    }
+}
+
+fn run_check(tier: &str) -> i32 {
+    let tier = std::env::var("VERIF_TIER").ok().filter(|t| t == "quick" || t == "thorough").unwrap_or(tier.to_string());
+    let seed: u64 = std::env::var("VERIF_SEED").ok().and_then(|s| s.parse().ok()).unwrap_or(20260927);
+    let total: usize = std::env::var("VERIF_RUNS").ok().and_then(|s| s.parse().ok()).unwrap_or(if tier == "thorough" { 1_500_000 } else { 24_000 });
+    let t0 = Instant::now();
+    // watchdog: a lock the scheduler does not see could block for real
+    std::thread::spawn(move || {
+        std::thread::sleep(std::time::Duration::from_secs(if total > 100_000 { 3600 } else { 600 }));
+        println!("violation: oracle=C20.completion the schedule batch did not complete within the watchdog time (a real, uncontrolled lock is blocking)");
+        println!("VIOLATION property=C20 replay={}/replays/C20-watchdog-{}.json", verif_dir(), seed);
+        std::process::exit(1);
+    });
+    let ex = calibrate();
+    if ex.s1 == ex.s2 || ex.dcbor_s0 == ex.dcbor_s1 {
+        eprintln!("HARNESS-ERROR: calibration cannot tell the model states apart (S1==S2: {}, S0==S1 at dcbor level: {})", ex.s1 == ex.s2, ex.dcbor_s0 == ex.dcbor_s1);
+        return 2;
+    }
+    EXPECTED.set(ex).ok();
+    let wl = workload_for(&tier);
+    let dir = std::path::PathBuf::from(format!("{}/replays", verif_dir()));
+    std::fs::create_dir_all(&dir).ok();
+    println!("schedsim property=C20 tier={} VERIF_SEED={} schedules={} threads<={} ops/thread<={}", tier, seed, total, wl.max_threads, wl.max_ops);
+    // process-level parallelism is not used: one scheduler, one OS thread at a time; batches alternate schedulers
+    let kinds = ["random", "pct1", "pct2", "pct3"];
+    let per = (total / kinds.len()).max(1);
+    let mut violation: Option<(String, String, String, u64)> = None;
+    let mut per_kind: BTreeMap<String, u64> = BTreeMap::new();
+    for (i, k) in kinds.iter().enumerate() {
+        let before = stats().executions.load(Ordering::Relaxed);
+        let s = seed.wrapping_mul(0x9E3779B97F4A7C15).wrapping_add(i as u64);
+        if let Err(msg) = run_batch(k, s, per, wl, &dir) {
+            violation = Some((k.to_string(), msg, newest_schedule(&dir).unwrap_or_default(), s));
+        }
+        per_kind.insert(k.to_string(), stats().executions.load(Ordering::Relaxed) - before);
+        if violation.is_some() {
+            break;
+        }
+    }
+    let wall = t0.elapsed().as_secs_f64();
+    let mut exit = 0;
+    if let Some((kind, msg, sched_file, s)) = &violation {
+        let oracle = oracle_of(msg);
+        let first = msg.lines().next().unwrap_or("").to_string();
+        // minimise the workload: re-search smaller configurations with a bounded number of seeds
+        let mut best: Option<(Workload, String, String)> = None;
+        'outer: for mt in 2..=wl.max_threads.min(4) {
+            for mo in 1..=wl.max_ops.min(2) {
+                let small = Workload { max_threads: mt, max_ops: mo };
+                for extra in 0..4u64 {
+                    if let Err(m2) = run_batch(kind, s.wrapping_add(1000 + extra), 3000, small, &dir) {
+                        if oracle_of(&m2) == oracle {
+                            best = Some((small, m2, newest_schedule(&dir).unwrap_or_default()));
+                            break 'outer;
+                        }
+                    }
+                }
+            }
+        }
+        let (rwl, rmsg, rfile) = match best {
+            Some((w, m, f)) => (w, m, f),
+            None => (wl, msg.clone(), sched_file.clone()),
+        };
+        let path = format!("{}/C20-{}-{}.json", dir.display(), seed, kind);
+        let j = json!({
+            "version": 1, "engine": "schedsim", "property": "C20", "oracle": oracle, "scheduler": kind, "seed": s, "tier": tier,
+            "max_threads": rwl.max_threads, "max_ops": rwl.max_ops, "schedule_file": rfile,
+            "violation": rmsg.lines().take(12).collect::<Vec<_>>().join("\n"),
+            "minimised": rwl.max_threads < wl.max_threads || rwl.max_ops < wl.max_ops,
+            "original_workload": {"max_threads": wl.max_threads, "max_ops": wl.max_ops},
+        });
+        std::fs::write(&path, serde_json::to_string_pretty(&j).unwrap()).ok();
+        // confirm in a fresh process
+        let exe = std::env::current_exe().unwrap();
+        let out = std::process::Command::new(exe).args(["replay", &path]).output();
+        let ok = out.as_ref().map(|o| o.status.code() == Some(1) && String::from_utf8_lossy(&o.stdout).contains("REPRODUCED")).unwrap_or(false);
+        if ok {
+            println!("violation: oracle={} scheduler={} workload threads<={} ops<={}: {}", oracle, kind, rwl.max_threads, rwl.max_ops, first);
+            println!("VIOLATION property=C20 replay={}", path);
+            exit = 1;
+        } else {
+            eprintln!("HARNESS-ERROR: violation {} did not reproduce from {} in a fresh process: {}", oracle, path, first);
+            return 2;
+        }
+    }
+    // evidence
+    let st = stats();
+    let execs = st.executions.load(Ordering::Relaxed);
+    let probes: serde_json::Map<String, serde_json::Value> = st.probes.lock().unwrap().iter().map(|(k, v)| (k.to_string(), json!(v))).collect();
+    let expected_probes = ["two-threads-in-first-use-initialisation-window", "register_tags-overlaps-format", "lookup-overlaps-initialisation", "both-S1-and-S2-texts-observed", "both-S0-and-S1-dcbor-texts-observed"];
+    let gaps: Vec<&str> = expected_probes.iter().filter(|p| !probes.contains_key(**p)).cloned().collect();
+    let ev = json!({
+        "property_id": "C20", "tier": tier, "seed": seed, "level": "exploration", "wall_s": wall, "violations": if exit == 1 { 1 } else { 0 },
+        "coverage": {
+            "evaluations": execs,
+            "distinct_nontrivial": st.histories.lock().unwrap().len(),
+            "rule": "one evaluation = one complete execution of 2..N shuttle threads (N and the 1..4 operations per thread drawn from shuttle::rand) over the real registry code, starting from uninitialised registries, under a seeded Random or PCT(depth 1-3) schedule. distinct = distinct histories by a hash over (operation, thread, number of overlapping foreign operations, output length class) in completion order; every execution has >=2 threads and evaluates the completion, alone-text, linearizability and shared-envelope oracles, so all are non-trivial.",
+            "samples": st.sample.lock().unwrap().clone(),
+            "schedules_per_scheduler": per_kind,
+            "runs_per_hour": (execs as f64 / wall.max(1e-9) * 3600.0) as u64,
+            "operations_executed": st.ops_run.load(Ordering::Relaxed),
+            "max_threads_in_one_execution": st.max_threads.load(Ordering::Relaxed),
+            "sim_time_note": "no clock is involved; the scheduler decides every interleaving at Once/Mutex operations and thread spawn/join",
+            "faults_fired": {"sched.random": per_kind.get("random").copied().unwrap_or(0), "sched.pct": per_kind.get("pct1").copied().unwrap_or(0) + per_kind.get("pct2").copied().unwrap_or(0) + per_kind.get("pct3").copied().unwrap_or(0)},
+            "probes": probes, "probe_gaps": gaps,
+            "components": {
+                "real": ["bc-envelope registries and formatting (/repo working tree built with --cfg bc_envelope_verif)", "dcbor (vendored copy, one changed line)", "bc-components"],
+                "stub": ["std::sync::{Once,Mutex,MutexGuard} replaced by shuttle's models in the four registry files and in dcbor's tags store", "std::sync::Arc is not modelled (no scheduling points on clone/drop)"],
+            },
+            "exhaustive": false,
+        },
+        "assumptions": [
+            "shuttle's models of Once/Mutex are faithful to std's (in particular: poisoning, re-entrancy reported as deadlock)",
+            "envelopes are immutable after construction and hold no lazy caches, so Arc clone/drop need no scheduling points",
+            "a lock added outside the four hooked files and dcbor's tags store is invisible to the scheduler; the wall-clock watchdog reports a batch that does not complete",
+            "sampled schedules, not all schedules",
+        ],
+    });
+    std::fs::create_dir_all(format!("{}/evidence", verif_dir())).ok();
+    std::fs::write(format!("{}/evidence/C20.json", verif_dir()), serde_json::to_string_pretty(&ev).unwrap()).ok();
+    println!("done: {} schedules in {:.1}s, {} distinct histories, exit {}", execs, wall, st.histories.lock().unwrap().len(), exit);
+    exit
+}
+
+fn replay(path: &str) -> i32 {
+    let text = match std::fs::read_to_string(path) {
+        Ok(t) => t,
+        Err(e) => {
+            eprintln!("HARNESS-ERROR: {}: {}", path, e);
+            return 2;
+        }
+    };
+    let v: serde_json::Value = match serde_json::from_str(&text) {
+        Ok(v) => v,
+        Err(e) => {
+            eprintln!("HARNESS-ERROR: {}", e);
+            return 2;
+        }
+    };
+    let wl = Workload { max_threads: v["max_threads"].as_u64().unwrap_or(8) as usize, max_ops: v["max_ops"].as_u64().unwrap_or(4) as usize };
+    let sched = v["schedule_file"].as_str().unwrap_or("").to_string();
+    let oracle = v["oracle"].as_str().unwrap_or("").to_string();
+    let ex = calibrate();
+    EXPECTED.set(ex).ok();
+    let r = std::panic::catch_unwind(move || {
+        shuttle::replay_from_file(move || scenario(wl), &sched);
+    });
+    match r {
+        Ok(()) => {
+            println!("NOT-REPRODUCED property=C20 oracle={}", oracle);
+            0
+        }
+        Err(e) => {
+            let msg = if let Some(s) = e.downcast_ref::<&str>() {
+                s.to_string()
+            } else if let Some(s) = e.downcast_ref::<String>() {
+                s.clone()
+            } else {
+                "panic".to_string()
+            };
+            println!("{}", msg.lines().take(12).collect::<Vec<_>>().join("\n"));
+            if oracle_of(&msg) == oracle {
+                println!("REPRODUCED property=C20 oracle={} replay={}", oracle, path);
+                1
+            } else {
+                println!("NOT-REPRODUCED property=C20 oracle={} (a different failure: {})", oracle, oracle_of(&msg));
+                0
+            }
+        }
+    }
 }
